@@ -3,6 +3,7 @@ import MaddyVerif.Model.QueueHop
 import MaddyVerif.Model.QueueRestart
 import MaddyVerif.Model.QueueErr
 import MaddyVerif.Model.QueueDup
+import MaddyVerif.Model.QueueTrace
 import Driver.Util
 namespace Driver.C01
 open MaddyVerif.Queue Driver
@@ -335,7 +336,44 @@ def parseForeign (s : String) : Option Unit :=
     (((String.ofList rest).splitOn ".").mapM one).map (fun _ => ())
   | _ => none
 
+/-- `C=<k><t|n>`: the client that submitted the message, row `k` of the harness's table `c01Conns`
+(the name it gave in HELO/EHLO), sender traced / not traced. -/
+def long64 : String := "pc-of-the-accounting-department-second-floor-room-two-hundred-and-seven"
+
+def rep (n : Nat) (s : String) : String := String.join (List.replicate n s)
+
+def clientTable : List String :=
+  [ "mail.example.com", "laptop..lan", long64 ++ ".corp.example.com",
+    rep 24 "department." ++ "example.com", "[192.0.2.7]", "[IPv6:2001:db8::7]", "localhost",
+    "my_host.lan", "xn--1.example", "пример.example", "xn--e1afmkfd.example", "MAIL.Example.COM.",
+    ".lan", "-pc-.example.com", rep 60 "ю" ++ ".example", "XN--A.example", "..", "x", "",
+    "bücher.example.xn--zz--" ]
+
+/-- `Q=<k>`: the configured name of the server, row `k` of the harness's table `c01Hosts`. -/
+def hostTable : List String :=
+  [ "mx.example.org", "mx..example.org", long64 ++ ".example.org", "mx.example.org.",
+    "пример.example", "xn--e1afmkfd.example", "MX.Example.ORG", "localhost",
+    rep 90 "mx." ++ "example.org", ".example.org", "mx_1.example.org", rep 60 "ю" ++ ".example" ]
+
+def parseClient (s : String) : Option (String × Bool) :=
+  match s.toList with
+  | 'C' :: '=' :: rest =>
+    match rest.reverse with
+    | c :: ds =>
+      if (c == 't' || c == 'n') && !ds.isEmpty then
+        ((String.ofList ds.reverse).toNat? >>= (clientTable[·]?)).map (fun h => (h, c == 'n'))
+      else none
+    | [] => none
+  | _ => none
+
+def parseHost (s : String) : Option String :=
+  match s.toList with
+  | 'Q' :: '=' :: rest => (String.ofList rest).toNat? >>= (hostTable[·]?)
+  | _ => none
+
 structure Ext where
+  client : Option (String × Bool) := none
+  host : String := "mx.example.org"
   restarts : Nat → Nat := fun _ => 0
   faults : Nat → Nat := fun _ => 0
   env : Env := ⟨true, false, fun _ => false⟩
@@ -357,12 +395,40 @@ def parseExt (rs : List Nat) (toks : List String) : Option Ext :=
         else if tok.startsWith "X=" then (parseForms tok).map (fun f => { x with forms := f })
         else if tok.startsWith "H=" then (parseHeader tok).map (fun h => { x with hdr := h })
         else if tok.startsWith "F=" then (parseForeign tok).map (fun _ => x)
+        else if tok.startsWith "C=" then (parseClient tok).map (fun c => { x with client := some c })
+        else if tok.startsWith "Q=" then (parseHost tok).map (fun h => { x with host := h })
         else none) { restarts := rr })
 
 end ext
 
+/-- `C01 names <utf8> <client row|-><t|n> <server row> <hc> <cc>`: the MTA-name fields of the report;
+`hc` / `cc` = the result of `dns.SelectIDNA` for the server / client name (`!` = error). -/
+def handleNames : List String → String
+  | [u, ct, hk, hc, cc] =>
+    let convTok (t : String) : Option (Option String) :=
+      if t == "!" then some none
+      else (Driver.unhexRunes? t).map (fun l => some (String.ofList (l.map Char.ofNat)))
+    let client : Option (Option (String × Bool)) :=
+      if ct == "-n" then some none else (parseClient ("C=" ++ ct)).map some
+    match (if u == "0" || u == "1" then some () else none), client, parseHost ("Q=" ++ hk), convTok hc, convTok cc with
+    | some _, some cl, some host, some hres, some cres =>
+      let conv : String → Option String := fun s =>
+        if s == host then hres else if (cl.map (·.1)) == some s then cres else none
+      let o : MaddyVerif.QueueTrace.Origin := ⟨cl.map (·.1), (cl.map (·.2)).getD true, host⟩
+      let enc (v : String) : String :=
+        Driver.hexRunes ((v.toList.filter (fun c => !c.isWhitespace)).map Char.toNat)
+      match MaddyVerif.QueueTrace.mtaFields conv o.host (MaddyVerif.QueueTrace.receivedFromMTA o) with
+      | none => "fails"
+      | some fs =>
+        let get (n : String) : Option String := (fs.find? (·.1 == n)).map (·.2)
+        let rf := match get "Received-From-MTA" with | some v => enc v | none => "none"
+        s!"ok rm={enc ((get "Reporting-MTA").getD "")} rf={rf}"
+    | _, _, _, _, _ => "bad-op"
+  | _ => "bad-op"
+
 def handle : List String → String
   | "hop" :: rest => handleHop rest
+  | "names" :: rest => handleNames rest
   | "cls" :: rest => handleCls rest
   | "run" :: mt :: kind :: dsn :: rcpts :: plans :: ext =>
     -- optional tokens: R=<restart before attempt k>.… and E=<utf8><sender form><original-recipient forms>
@@ -378,7 +444,15 @@ def handle : List String → String
         let env := x.env
         let k := if kind == "p" then Kind.partialD else Kind.atomic
         let planAt : Nat → Plan := fun i => (ps[i]?).getD allOk
-        let res := MaddyVerif.QueueRestart.runRD maxTries k (dsn == "1") env x.hdr planAt restarts (maxTries + 1) 0
+        -- the names of the MTAs in the report (Model/QueueTrace.lean).  Assumption on the library
+        -- primitive: dns.SelectIDNA converts every server name of the table (the harness checks that
+        -- on the names it uses); what it does with a client name does not matter
+        -- (C01_report_decision_ignores_client), so the conversion that refuses them all will do.
+        let conv : String → Option String := fun s => if hostTable.contains s then some s else none
+        let origin : MaddyVerif.QueueTrace.Origin :=
+          ⟨x.client.map (·.1), (x.client.map (·.2)).getD true, x.host⟩
+        let canName := MaddyVerif.QueueTrace.mtaOk conv origin
+        let res := MaddyVerif.QueueRestart.runRD maxTries k (dsn == "1" && canName) env x.hdr planAt restarts (maxTries + 1) 0
           (MaddyVerif.QueueRestart.accepted rs)
         " ".intercalate (res.1.filterMap showEv ++ (if res.2 then ["BROKEN"] else []))
     | _, _ => "bad-op"
